@@ -259,7 +259,7 @@ def run_case(spec):
 def check(rep, tier, seed, specs=None, n_override=None):
     quick = tier == 'quick'
     if specs is None:
-        n = n_override or (2500 if quick else 100000)
+        n = n_override or (10000 if quick else 100000)
         specs = [{'seed': common.hash64('c14', 'fixed' if i < n // 2 else seed, i)} for i in range(n)]
     results, lost = common.shard_run('c14', specs, timeout_s=1500 if quick else 6 * 3600)
     rep.rule = ('generated references (both strands, multi-isoform, NF tags) x genomic events written as VEP rows: SNV, deletion (allele -), insertion '
